@@ -351,11 +351,29 @@ def _mult_case(shape, axis_pos, n_items, values, with_ellipsis, unique_flag=None
     return out
 
 
+def _several_axes(fails):
+    """several indexed axes: whatever (P.T @ P).reduce() is, it must denote P.T @ P"""
+    from furax._base.indices import IndexOperator
+    for shape, idx in [((3, 2), (jnp.asarray([0, 0, 2]), 1)), ((2, 3), (jnp.asarray([1, 1]), jnp.asarray([0, 2]))),
+                       ((2, 2, 3), (0, Ellipsis, jnp.asarray([2, 2, 1])))]:
+        ref = np.zeros(shape, np.float32)[_np_index(idx)]
+        try:
+            op = IndexOperator(idx, in_structure=S(shape), out_structure=S(ref.shape))
+            P = dense(op)
+            red = (op.T @ op).reduce()
+            if not close(dense(red), P.T @ P, 1e-4):
+                fails.append(f'(P.T @ P).reduce() changes the product for {len(idx)} indexed axes on {shape}')
+        except Exception as e:      # noqa: BLE001
+            fails.append(f'(P.T @ P).reduce() raises {type(e).__name__} for several indexed axes on {shape}: {str(e)[:80]}')
+
+
 def multiplicities(w, seed, spec):
     fails = []
     rng = np.random.default_rng(seed)
     only_alias = bool(spec.get('only_alias'))
     only_unique = bool(spec.get('only_unique'))
+    if not only_alias and not only_unique:
+        _several_axes(fails)
     cases = []
     size_w = w.get('size') if isinstance(w.get('size'), int) and 1 <= w.get('size') <= 6 else None
     if size_w:
@@ -383,7 +401,12 @@ def multiplicities(w, seed, spec):
                     continue
                 if only_unique and not flag:
                     continue
-                for kind, msg in _mult_case(shape, ax, 1, vals, ell, flag):
+                try:
+                    res = _mult_case(shape, ax, 1, vals, ell, flag)
+                except Exception as e:      # noqa: BLE001
+                    res = [('error', f'(P.T @ P).reduce() raises {type(e).__name__}: {str(e)[:80]} for values '
+                                     f'{np.asarray(vals).tolist()} on axis {ax} of {shape}')]
+                for kind, msg in res:
                     listed = (alias and F_ALIAS in OPEN and kind == 'wrong' and not only_alias) or \
                              (flag and F_UNIQUE in OPEN and kind == 'not-diagonal' and not only_unique)
                     if only_alias and kind != 'wrong':
